@@ -107,9 +107,15 @@ Definition trun (skip : bool) (c : cfg) (t : tstate) (sch : list taction) : tsta
 (* FAIRNESS of the watcher, with wake-up latency [dl] (decidable): time never
    passes more than dl beyond the later of the timer instant and the watcher's
    last scan — i.e. whenever the timer is due (nea <= clk) the TTL goroutine has
-   run within the last dl.  (With dl = 0: the clock cannot pass nea without a
-   wake-up at nea, and while nea stays in the past — the code then re-arms with a
-   zero wait — a scan runs at every instant the clock takes.) *)
+   run within the last dl.  The meaningful instances have 1 <= dl.  dl = 0 is
+   DEGENERATE in integer time: the scan is strict (an entry is signalled only at
+   an instant AFTER its expiry e), so the wake-up at clk = e leaves the entry
+   unsignalled with nea = lastwake = e, and the clock step to e + 1 — which the
+   signal needs — is already unfair at dl = 0 (e + 1 <= max e e + 0 is false).
+   Hence [wfair _ c 0] is false on every schedule in which the clock passes the
+   expiry of an entry that stays registered and is not held, and the dl = 0
+   instance of the latency theorem says next to nothing
+   (Property.C06_wfair_zero_is_degenerate). *)
 Fixpoint wfair (skip : bool) (c : cfg) (dl : Z) (t : tstate) (sch : list taction) : bool :=
   match sch with
   | [] => true
@@ -164,9 +170,30 @@ Fixpoint srun (c : cfg) (hdr : bool) (groups : list Z) (h : shstate) (n : N)
 
 Definition scase := ((Z * Z * Z * bool * list Z) * list (sop * sobs))%type.
 
+(* The clock of a case never goes back: Model.hstep (HAdvance d) adds d as it
+   is, [tstep (TAdv d)] adds max 0 d, so a case with a negative step would walk
+   through states that are not states of a timed schedule.  Such a case is
+   REJECTED (reported as a mismatch at the index of the offending operation, with
+   the observation the case carries there) before anything is compared:
+   [run_scase k = None] implies that every clock step of k is non-negative
+   (Property.C06_sched_suite_clock_steps_nonneg), which is the premise of
+   Property.C06_sched_suite_states_are_timed_reachable. *)
+Definition nonneg_advb (o : sop) : bool :=
+  match o with SOp (HAdvance d) => 0 <=? d | _ => true end.
+
+Fixpoint neg_adv (n : N) (ops : list (sop * sobs)) : option (N * sobs) :=
+  match ops with
+  | [] => None
+  | (o, seen) :: rest => if nonneg_advb o then neg_adv (n + 1)%N rest else Some (n, seen)
+  end.
+
 Definition run_scase (k : scase) : option (N * sobs) :=
   let '(p, ops) := k in
   let '(mx, sm, tl, hdr, groups) := p in
   let c := {| qmax := mx; smax := sm; ttl := tl; var := code_variant |} in
-  srun c hdr groups
-       {| sh := {| hs := init; hnow := 0; hgate := true; hpend := false |}; snea := tl |} 0%N ops.
+  match neg_adv 0%N ops with
+  | Some bad => Some bad
+  | None =>
+      srun c hdr groups
+           {| sh := {| hs := init; hnow := 0; hgate := true; hpend := false |}; snea := tl |} 0%N ops
+  end.
